@@ -243,6 +243,15 @@ func (r *runner) shrink(s subject, d *Doc, orig compiled, steps []Step, kind str
 // abstract class of a failing script (after shrinking): which transformation, which kind of
 // inserted line, where (start / end of text, inside a view body, another lexer mode)
 func failureKey(kind string, d *Doc, steps []Step) string {
+	if kind == "accept" && d.FirstLineIndented() && len(steps) == 1 && steps[0].Op == "insert" {
+		all0 := true
+		for _, b := range steps[0].At {
+			all0 = all0 && b == 0
+		}
+		if all0 {
+			return "first-line-indented:layout-line-before-it"
+		}
+	}
 	var parts []string
 	cur := d
 	for _, st := range steps {
@@ -356,6 +365,18 @@ func (r *runner) subject(j *job) {
 			r.report(c, s, d, orig, steps, v)
 		}
 	}
+	if d.FirstLineIndented() {
+		// a class of its own: a layout line put in front of an indented FIRST line (random scripts never do that)
+		c.Hist("start-probe")
+		for _, k := range []string{"", "  ", "# c", "    # c", "#"} {
+			steps := []Step{{Op: "insert", At: []int{0}, Text: []string{k}}}
+			v, _ := r.check(s, d, orig, steps)
+			c.Count(s.name+"|"+fmt.Sprint(steps), orig.kind == "ok")
+			if v.bad {
+				c.Fail(failureKey(v.kind, d, steps), fmt.Sprintf("%s: the first line is indented; after putting the line %q in front of it: %s", s.name, k, v.what), replay{s.name, s.text, steps})
+			}
+		}
+	}
 	for i := 0; i < j.nVariants; i++ {
 		var steps []Step
 		for k, n := 0, 1+rng.Intn(3); k < n; k++ {
@@ -379,6 +400,9 @@ func (r *runner) subject(j *job) {
 		kinds := []string{"", "   ", "\t", "#", "# c", "  # c", "\t#", "        # deep"}
 		for b := 0; b <= len(d.Lines); b++ {
 			if b < len(d.Lines) && !d.Lines[b].Real {
+				continue
+			}
+			if b == 0 && d.FirstLineIndented() {
 				continue
 			}
 			col0 := true
